@@ -62,6 +62,13 @@ def obligations(tier, H):
                                 leaves.append(("w", "int"))
                             shape = {"cls": cls, "local": local, "pos": pos, "vals": pat, "dir": direction, "cver": cver, "sver": sver}
                             add(shape, leaves, fn="h_rpc")
+    # the same bare name was resolved before under another configuration's class table
+    for cls in classes:
+        nf = len(beans.field_names(cls))
+        pat = patterns(nf, thorough, cls.startswith('Ser'))[0]
+        leaves = [("f{0}".format(i), LEAF_ROT[i % 4]) for i in range(nf) if pat[i] != "none"]
+        add({"cls": cls, "local": True, "pos": "top", "vals": pat, "prior": True}, leaves)
+        add({"cls": cls, "local": True, "pos": "top", "vals": pat, "prior": True, "dir": "result", "cver": None, "sver": 2.0}, leaves, fn="h_rpc")
     # a local bean nested in a module-path bean and vice versa
     for cls, local, inner in (("D1", False, "lbeanlist"), ("S1", True, "beanlist"), ("D1", True, "lbeanlist")):
         for pos in POSITIONS:
